@@ -679,8 +679,19 @@ fn parse_type(p: &mut Parser) -> Result<Option<Type>, ErrorSet> {
     Ok(lhs)
 }
 
-/// Parse a type atom
+/// Parse a type atom, followed by any number of `?` suffixes
+///
+/// `A?` is shorthand for `1 + A`, which is how such types are displayed.
 fn parse_type_atom(p: &mut Parser) -> Result<Option<Type>, ErrorSet> {
+    let mut atom = parse_type_atom_no_suffix(p)?;
+    while p.eat(&Token::Question) {
+        atom = atom.map(|ty| Type::Sum(Box::new(Type::One), Box::new(ty)));
+    }
+    Ok(atom)
+}
+
+/// Parse a type atom
+fn parse_type_atom_no_suffix(p: &mut Parser) -> Result<Option<Type>, ErrorSet> {
     match p.peek().cloned() {
         Some(Token::One) => {
             p.advance();
@@ -698,15 +709,8 @@ fn parse_type_atom(p: &mut Parser) -> Result<Option<Type>, ErrorSet> {
             match str::parse::<u32>(exp_str) {
                 Ok(0) => Ok(Some(Type::One)),
                 Ok(1) => Ok(Some(Type::Two)),
-                Ok(2) => Ok(Some(Type::TwoTwoN(1))),
-                Ok(4) => Ok(Some(Type::TwoTwoN(2))),
-                Ok(8) => Ok(Some(Type::TwoTwoN(3))),
-                Ok(16) => Ok(Some(Type::TwoTwoN(4))),
-                Ok(32) => Ok(Some(Type::TwoTwoN(5))),
-                Ok(64) => Ok(Some(Type::TwoTwoN(6))),
-                Ok(128) => Ok(Some(Type::TwoTwoN(7))),
-                Ok(256) => Ok(Some(Type::TwoTwoN(8))),
-                Ok(512) => Ok(Some(Type::TwoTwoN(9))),
+                // 2^n for any power of two n (up to 2^31, the widest word type)
+                Ok(y) if y.is_power_of_two() => Ok(Some(Type::TwoTwoN(y.trailing_zeros()))),
                 Ok(y) => Err(ErrorSet::single(position, Error::Bad2ExpNumber(y))),
                 Err(_) => Err(ErrorSet::single(position, Error::NumberOutOfRange(raw))),
             }
